@@ -113,6 +113,32 @@ fn c19_bit_unpack_truncated() {
     assert!(!good, "truncated bit-packed data is an error");
 }
 
+/// C19: the same when the read resumes inside a byte (literal runs and miniblocks are continued
+/// across output batches with a carried bit position): the bits needed start at `bit_pos`.
+// @h name=c19_bit_unpack_truncated_resumed props=C19 tier=quick
+#[kani::proof]
+#[kani::unwind(12)]
+#[kani::stub(alloc::fmt::format, crate::kani_verif_support::stub_format)]
+#[kani::stub(std::backtrace::Backtrace::capture, crate::kani_verif_support::stub_backtrace)]
+fn c19_bit_unpack_truncated_resumed() {
+    let bytes: [u8; 2] = kani::any();
+    let len: usize = kani::any();
+    kani::assume(len <= 2);
+    let bw: u8 = kani::any();
+    kani::assume(bw >= 1 && bw <= 8);
+    let pos: u8 = kani::any();
+    kani::assume(pos >= 1 && pos <= 7);
+    // 2 values of bw bits starting at bit `pos` need ceil((pos + 2*bw)/8) bytes
+    kani::assume((pos as usize + 2 * bw as usize + 7) / 8 > len);
+    let mut out = [0u8; 2];
+    let mut st = BitUnpackState::new(bw);
+    st.bit_pos = pos;
+    let mut c = ReadCursor::from_slice(&bytes[..len]);
+    kani::cover!(len == 1 && pos == 5);
+    let good = is_ok_forget(bit_unpack(&mut st, &mut c, &mut out));
+    assert!(!good, "truncated bit-packed data is an error");
+}
+
 /// ULEB128 by definition.
 fn ref_vlq(bytes: &[u8]) -> Option<(u64, usize)> {
     let mut result = 0u64;
